@@ -158,12 +158,63 @@ Definition unified (v : dview) : list mregion :=
   | _ => match v_memory v with SOk l => l | _ => [] end
   end.
 
-Definition thread_obs (mem : list mregion) (t : mthread) : list Z :=
+
+(* ---- CPU contexts: MinidumpContext::read picks the layout by processor_architecture, reads the
+   struct and checks ContextFlagsCpu::from_flags(context_flags) (= flags & CONTEXT_CPU_MASK restricted to
+   the declared cpu bits) against the architecture's constant.  x86 / amd64 / arm / arm64 are modelled. *)
+Fixpoint lflat (L : layout) (v : value) {struct L} : list Z :=
+  match L with
+  | LU w => match v with
+            | VInt z => if Nat.eqb w 16 then [z / 18446744073709551616; z mod 18446744073709551616] else [z]
+            | _ => []
+            end
+  | LI _ => match v with VInt z => [z] | _ => [] end
+  | LNil => []
+  | LSeq t r => match v with VSeq a b => lflat t a ++ lflat r b | _ => [] end
+  | LArr n t =>
+      (fix arr (n : nat) (v : value) {struct n} : list Z :=
+         match n, v with
+         | S n', VSeq a b => lflat t a ++ arr n' b
+         | _, _ => []
+         end) n v
+  end.
+
+Definition ctx_layout (arch : Z) : option (layout * (Z * nat)) :=
+  if (arch =? PROCESSOR_ARCHITECTURE_INTEL) || (arch =? PROCESSOR_ARCHITECTURE_IA32_ON_WIN64)
+  then Some (L_CONTEXT_X86, (CF_CONTEXT_X86, 0%nat))
+  else if arch =? PROCESSOR_ARCHITECTURE_AMD64 then Some (L_CONTEXT_AMD64, (CF_CONTEXT_AMD64, 6%nat))
+  else if arch =? PROCESSOR_ARCHITECTURE_ARM then Some (L_CONTEXT_ARM, (CF_CONTEXT_ARM, 0%nat))
+  else if arch =? PROCESSOR_ARCHITECTURE_ARM64 then Some (L_CONTEXT_ARM64, (CF_CONTEXT_ARM64, 0%nat))
+  else None.
+
+(* [-3]: no system info; [-2]: architecture not modelled; [-1]: no context; 1 :: fields *)
+Definition context_obs (e : endian) (sys : sres msysinfo) (ctx : option (list Z)) : list Z :=
+  match sys with
+  | SOk s =>
+      match ctx_layout (si_arch s) with
+      | None => [-2]
+      | Some (L, (cf, idx)) =>
+          match ctx with
+          | None => [-1]
+          | Some bytes =>
+              match dec e L bytes with
+              | None => [-1]
+              | Some (v, _) =>
+                  let fl := lflat L v in
+                  if Z.land (Z.land (nth idx fl 0) CONTEXT_CPU_MASK) CF_ALL_BITS =? cf then 1 :: fl else [-1]
+              end
+          end
+      end
+  | _ => [-3]
+  end.
+
+Definition thread_obs (e : endian) (sys : sres msysinfo) (mem : list mregion) (t : mthread) : list Z :=
   [th_id t; th_suspend t; th_pclass t; th_prio t; th_teb t; th_stack_base t]
   ++ match stack_memory t mem with
      | Some r => region_obs r
      | None => [-1]
-     end.
+     end
+  ++ context_obs e sys (th_ctx t).
 
 (* BTreeMap<u32, String>: last name per id, ascending ids *)
 Fixpoint insert_name (n : Z * list Z) (l : list (Z * list Z)) : list (Z * list Z) :=
@@ -186,14 +237,14 @@ Definition run_observe (bytes : list Z) : option (list (Z * list (list Z))) :=
              sec (v_sysinfo v) (fun s => [[si_arch s; si_level s; si_revision s; si_nproc s; si_ptype s; si_major s;
                                            si_minor s; si_build s; si_platform s; si_suite s; si_reserved2 s]
                                           ++ si_cpu s ++ ostr (si_csd s)]);
-             sec (v_threads v) (map (thread_obs mem));
+             sec (v_threads v) (map (thread_obs e (v_sysinfo v) mem));
              sec (v_modules v) (map (module_obs e os));
              sec (v_memory v) (map region_obs);
              sec (v_memory v) (fun l => map (query_obs l) (region_queries l));
              sec (v_memory64 v) (map region_obs);
              sec (v_memory64 v) (fun l => map (query_obs l) (region_queries l));
              sec (v_exception v) (fun x => [[ex_thread_id x; ex_align x; ex_code x; ex_flags x; ex_record x; ex_address x;
-                                             ex_nparams x; ex_align2 x] ++ ex_info x]);
+                                             ex_nparams x; ex_align2 x] ++ ex_info x ++ context_obs e (v_sysinfo v) (ex_ctx x)]);
              sec (v_tnames v) (fun l => map (fun n => fst n :: str (snd n)) (names_map l));
              sec (v_unloaded v) (map (fun u => [um_base u; um_size u; um_checksum u; um_time u] ++ str (um_name u)
                                                ++ str (time_size_id (um_time u) (um_size u))));
